@@ -156,3 +156,8 @@ mut("try_no_key_eager_again", "src/mutex/mutex.rs", "self.raw_try_write().then(|
     [("C17", "V2"), ("C02", "T1"), ("C05", "M4")], "restore G2")
 mut("is_poisoned_clears", "src/poisonable/poisonable.rs", "\tpub fn is_poisoned(&self) -> bool {\n\t\tself.poisoned.is_poisoned()",
     "\tpub fn is_poisoned(&self) -> bool {\n\t\tlet p = self.poisoned.is_poisoned();\n\t\tself.poisoned.clear_poison();\n\t\tp", [("C17", "V3"), ("C10", "V3")])
+
+mut("ordered_try_write_empty_refuses", "src/collection/utils.rs",
+    "pub unsafe fn ordered_try_write(locks: &[&dyn RawLock]) -> bool {\n\tlet locked = Cell::new(0);\n",
+    "pub unsafe fn ordered_try_write(locks: &[&dyn RawLock]) -> bool {\n\tif locks.is_empty() {\n\t\treturn false;\n\t}\n\tlet locked = Cell::new(0);\n",
+    [("C13", "X2"), ("C04", "X2")])
